@@ -489,7 +489,7 @@ impl World {
                 self.push_event(ne)
             }
             "retag" => {
-                // retag <n> <client j>: same ciphertext, h tag of client j's current group id
+                // retag <n> <client j> [tsoff]: same ciphertext, h tag of client j's current group id (original or chosen timestamp)
                 let e = self.events[u(t[1]) as usize].clone();
                 let j = u(t[2]) as usize;
                 let nid = {
@@ -504,7 +504,7 @@ impl World {
                     Some(n) => {
                         let ne = EventBuilder::new(e.kind, e.content.clone())
                             .tag(Tag::custom(TagKind::h(), [hex::encode(n)]))
-                            .custom_created_at(e.created_at)
+                            .custom_created_at(if t.len() > 3 { Timestamp::from(self.t0 + u(t[3])) } else { e.created_at })
                             .sign_with_keys(&Keys::generate())
                             .unwrap();
                         self.push_event(ne)
